@@ -124,8 +124,10 @@ let () =
       (try
         while true do
           let line = input_line ic in
-          let r = Text.transform_text (str_of_cps line) in
-          print_endline (Stdlib.String.concat "," (Stdlib.List.map (fun c -> string_of_int (int_of_n c)) r))
+          let show r = Stdlib.String.concat "," (Stdlib.List.map (fun c -> string_of_int (int_of_n c)) r) in
+          let s = str_of_cps line in
+          (* model of transform_text ; the independent specification jsx_clean *)
+          print_endline (show (Text.transform_text s) ^ ";" ^ show (JsxText.jsx_clean s))
         done
       with End_of_file -> ())
   | _ -> prerr_endline "usage: driver cases <tok> <dumpdir> | text <file>"
